@@ -1115,13 +1115,14 @@ func C11() *check.Property {
 		Title:    "Sharing keeps one upstream subscription and follows the reference count",
 		Patterns: CorePatterns,
 		Scope:    []string{ro},
-		Rules:    []check.Rule{ruleShareGuarded(), ruleSingleConnect(), ruleRefcountPairing(), ruleResetBeforeTerminal(), ruleResetReleases(), ruleConnectableGuarded(), ruleShareReplayConfig(), ruleSubjectDelivers()},
+		Rules:    []check.Rule{ruleShareGuarded(), ruleSingleConnect(), ruleRefcountPairing(), ruleResetBeforeTerminal(), ruleResetReleases(), ruleConnectableGuarded(), ruleShareReplayConfig(), ruleSubjectDelivers(), ruleStateLevel()},
 		Explanation: "Structural clauses only; event histories are NOT decided. The discipline that makes 'at most one live upstream subscription' true is checked: Share's connection state (subject, upstream subscription, reference count) is only touched under its mutex, " +
 			"with the 'requires lock' closures inferred from their call sites (lock-set data-flow); the upstream subscribe site is confined to the path on which a new subject was installed; the reference count is incremented/decremented exactly once per subscription/unsubscription under the mutex " +
 			"and the zero test follows the decrement in the same region; the connectable observable subscribes its source under its mutex only when no live connection exists, and its mutable fields are guarded; ShareReplay's configuration is what its name says.",
 		NotDecided:  "the behaviour over sequences of subscribe/unsubscribe/notification/connect events (reset options, replay contents); that 'join the running execution' delivers the same notifications to all subscribers (follows from the subject rules of C10).",
 		Assumptions: []string{"sync.Mutex semantics", "subjects honour C10"},
 		Floors:      map[string]int{"share_variables": 3, "connect_sites": 2, "refcount_ops": 2, "field_accesses": 8, "share_terminal_slots": 2, "share_reset_checks": 4},
+		Controls:    map[string]string{"zz_verif_controls_c12.go": roControl(controlsC12)},
 	}
 }
 
@@ -1131,7 +1132,7 @@ func C13() *check.Property {
 		Title:    "Goroutine-safe parts of the API are free of data races",
 		Patterns: cat(CorePatterns, []string{PromPkg}),
 		Scope:    []string{ro},
-		Rules:    []check.Rule{ruleTypeProtection(), ruleSCVarProtection(), ruleHelperPointerProtection(), ruleNoDowngrade(), ruleChanCloseSend(), ruleShareGuarded(), ruleLockPairing(), ruleMultiProducerSafe()},
+		Rules:    []check.Rule{ruleTypeProtection(), ruleSCVarProtection(), ruleHelperPointerProtection(), ruleNoDowngrade(), ruleChanCloseSend(), ruleShareGuarded(), ruleLockPairing(), ruleMultiProducerSafe(), withScope(ruleStateLevel(), PromPkg)},
 		Explanation: "Static lock-set discipline check (Eraser's rule applied to the source), restricted to the state the property names. For the goroutine-safe types every field written after construction must be accessed atomically, through a concurrency-safe type, or with one " +
 			"common mutex held by all accesses (data-flow of held locks over each method's CFG, with deferred unlocks, TryLock edges, and lock requirements of helpers/closures inferred from all their call sites). For every operator built with a safe constructor, each closure variable " +
 			"that is written after publication and reachable from two possibly-concurrent emission contexts (the relation of C02, teardown included) must be protected the same way. Share's per-application state is checked likewise. It reports locations that are not consistently protected; " +
@@ -1139,6 +1140,6 @@ func C13() *check.Property {
 		NotDecided:  "races through memory the analysis does not track (values reached through pointers handed to helpers are checked inside the helper only; user-supplied objects); happens-before edges other than locks, atomics, channel-typed values and the ordering facts S1-S4.",
 		Assumptions: []string{"sync, sync/atomic, channels and the internal xsync/xatomic wrappers are correct", "sources are individually sequential (as in C02)"},
 		Floors:      map[string]int{"safe_types": 9, "field_accesses": 200, "safe_scs": 25, "shared_variables": 40, "functions_with_locks": 40, "multi_producer_scs": 20},
-		Controls:    map[string]string{"zz_verif_controls_c13.go": roControl(controlsC13), "zz_verif_controls_c07.go": roControl(controlsC07), "zz_verif_controls_c02.go": roControl(controlsC02)},
+		Controls:    map[string]string{"zz_verif_controls_c13.go": roControl(controlsC13), "zz_verif_controls_c07.go": roControl(controlsC07), "zz_verif_controls_c02.go": roControl(controlsC02), "zz_verif_controls_c12.go": roControl(controlsC12)},
 	}
 }
